@@ -210,3 +210,91 @@ package config
 //@   at store activeDefaultValue assert stores == 0 ? value == nil : (stores == 1 && validated && verr == nil && value == vc)
 //@   at store activeDefaultValue ghost stores = stores + 1
 //@   at return assert stores == ((ok && verr == nil) ? 2 : 1)
+
+// the concurrency-safe getters do the same under their own mutex
+//@ func (*safe).GetAsString$1
+//@   requires valid != nil && releaseLevel != nil
+//@   nopanic off
+//@   modifies *
+//@   ghost var refreshed bool = false
+//@   ghost var reflagged bool = false
+//@   ghost var vc2 *valueCache = nil
+//@   ghost var locked bool = false
+//@   at call (*Mutex).Lock ghost locked = true
+//@   at call (*AtomicBool).IsSet assert locked
+//@   at after getValidityFlag ghost reflagged = true
+//@   at call getValueCache assert locked && reflagged && arg0 == name && arg1 == option && arg2 == OptTypeString
+//@   at after getValueCache ghost refreshed = true
+//@   at after getValueCache ghost vc2 = ret1
+//@   ensures refreshed == !old(isSet(valid))
+//@   ensures !refreshed ==> r0 == value
+//@   ensures refreshed ==> r0 == (vc2 != nil ? vc2.stringVal : fallback)
+
+//@ func (*safe).GetAsInt$1
+//@   requires valid != nil && releaseLevel != nil
+//@   nopanic off
+//@   modifies *
+//@   ghost var refreshed bool = false
+//@   ghost var reflagged bool = false
+//@   ghost var vc2 *valueCache = nil
+//@   ghost var locked bool = false
+//@   at call (*Mutex).Lock ghost locked = true
+//@   at call (*AtomicBool).IsSet assert locked
+//@   at after getValidityFlag ghost reflagged = true
+//@   at call getValueCache assert locked && reflagged && arg0 == name && arg1 == option && arg2 == OptTypeInt
+//@   at after getValueCache ghost refreshed = true
+//@   at after getValueCache ghost vc2 = ret1
+//@   ensures refreshed == !old(isSet(valid))
+//@   ensures !refreshed ==> r0 == value
+//@   ensures refreshed ==> r0 == (vc2 != nil ? vc2.intVal : fallback)
+
+//@ func (*safe).GetAsBool$1
+//@   requires valid != nil && releaseLevel != nil
+//@   nopanic off
+//@   modifies *
+//@   ghost var refreshed bool = false
+//@   ghost var reflagged bool = false
+//@   ghost var vc2 *valueCache = nil
+//@   ghost var locked bool = false
+//@   at call (*Mutex).Lock ghost locked = true
+//@   at call (*AtomicBool).IsSet assert locked
+//@   at after getValidityFlag ghost reflagged = true
+//@   at call getValueCache assert locked && reflagged && arg0 == name && arg1 == option && arg2 == OptTypeBool
+//@   at after getValueCache ghost refreshed = true
+//@   at after getValueCache ghost vc2 = ret1
+//@   ensures refreshed == !old(isSet(valid))
+//@   ensures !refreshed ==> r0 == value
+//@   ensures refreshed ==> r0 == (vc2 != nil ? vc2.boolVal : fallback)
+
+//@ func (*safe).GetAsStringArray$1
+//@   requires valid != nil && releaseLevel != nil
+//@   nopanic off
+//@   modifies *
+//@   ghost var refreshed bool = false
+//@   ghost var reflagged bool = false
+//@   ghost var vc2 *valueCache = nil
+//@   ghost var locked bool = false
+//@   at call (*Mutex).Lock ghost locked = true
+//@   at call (*AtomicBool).IsSet assert locked
+//@   at after getValidityFlag ghost reflagged = true
+//@   at call getValueCache assert locked && reflagged && arg0 == name && arg1 == option && arg2 == OptTypeStringArray
+//@   at after getValueCache ghost refreshed = true
+//@   at after getValueCache ghost vc2 = ret1
+//@   ensures refreshed == !old(isSet(valid))
+//@   ensures !refreshed ==> r0 == value
+//@   ensures refreshed ==> r0 == (vc2 != nil ? vc2.stringArrayVal : fallback)
+
+// validation: a value is only accepted with the option's type, and the validated cache holds exactly it
+//@ func validateValue
+//@   requires option != nil
+//@   nopanic off
+//@   modifies *
+//@   loop 0 invariant true
+//@   loop 1 invariant true
+//@   ensures (r1 == nil) == (r0 != nil)
+//@   ensures r1 == nil && typeIs(value, string) ==> option.OptType == OptTypeString && r0.stringVal == asType(value, string)
+//@   ensures r1 == nil && typeIs(value, bool) ==> option.OptType == OptTypeBool && r0.boolVal == asType(value, bool)
+//@   ensures r1 == nil && typeIs(value, int64) ==> option.OptType == OptTypeInt && r0.intVal == asType(value, int64)
+//@   ensures r1 == nil && typeIs(value, int) ==> option.OptType == OptTypeInt && r0.intVal == int64(asType(value, int))
+//@   ensures r1 == nil && typeIs(value, uint32) ==> option.OptType == OptTypeInt && r0.intVal == int64(asType(value, uint32))
+//@   ensures r1 == nil ==> typeIs(value, string) || typeIs(value, bool) || typeIs(value, []string) || typeIs(value, []any) || option.OptType == OptTypeInt
